@@ -41,6 +41,7 @@ _seed(seed),
 _total_weight(0),
 hash_seeds(_allocator) {
   if (num_buckets < 3) throw std::invalid_argument("Using fewer than 3 buckets incurs relative error greater than 1.");
+  if (num_hashes < 1) throw std::invalid_argument("At least one hash function is required.");
 
   // This check is to ensure later compatibility with a Java implementation whose maximum size can only
   // be 2^31-1.  We check only against 2^30 for simplicity.
